@@ -14,12 +14,12 @@ import (
 
 // ---- value pools ----------------------------------------------------------------------------------------------------
 
-func vi(i int64) sx.Sexp     { return sx.T("i", sx.Int(i)) }
-func vf(f float64) sx.Sexp   { return sx.T("f", sx.A(strconv.FormatUint(math.Float64bits(f), 10))) }
-func vs(s string) sx.Sexp    { return sx.T("s", sx.Str(s)) }
-func vb(b bool) sx.Sexp      { return sx.T("b", sx.Bool(b)) }
-func vx(s string) sx.Sexp    { return sx.T("x", sx.Str(s)) }
-func vr(s string) sx.Sexp    { return sx.T("r", sx.Str(s)) }
+func vi(i int64) sx.Sexp       { return sx.T("i", sx.Int(i)) }
+func vf(f float64) sx.Sexp     { return sx.T("f", sx.A(strconv.FormatUint(math.Float64bits(f), 10))) }
+func vs(s string) sx.Sexp      { return sx.T("s", sx.Str(s)) }
+func vb(b bool) sx.Sexp        { return sx.T("b", sx.Bool(b)) }
+func vx(s string) sx.Sexp      { return sx.T("x", sx.Str(s)) }
+func vr(s string) sx.Sexp      { return sx.T("r", sx.Str(s)) }
 func va(xs ...sx.Sexp) sx.Sexp { return sx.T("a", xs...) }
 func vh(kv ...sx.Sexp) sx.Sexp {
 	xs := []sx.Sexp{}
@@ -270,7 +270,7 @@ func randDirective(r *rand.Rand, kind string) string {
 			s.prec = r.Intn(20)
 		}
 	}
-	docs := documented[kind]
+	docs := documentedDoc[kind]
 	if r.Intn(10) < 8 && len(docs) > 0 && len(docs) < 52 {
 		s.letter = docs[r.Intn(len(docs))]
 	} else {
@@ -363,7 +363,7 @@ func randNode(r *rand.Rand, key string, depth int) sx.Sexp {
 	d := randDirective(r, kind)
 	if (kind == "a" || kind == "h") && r.Intn(3) != 0 {
 		// mostly non-alt, supported container formats
-		s := dirSpec{flags: "", width: -1, prec: -1, letter: documented[kind][r.Intn(len(documented[kind]))]}
+		s := dirSpec{flags: "", width: -1, prec: -1, letter: documentedDoc[kind][r.Intn(len(documentedDoc[kind]))]}
 		if r.Intn(3) == 0 {
 			s.flags = delimFlags[r.Intn(6)]
 		}
